@@ -43,7 +43,7 @@ def value(rng, w, n):
     """One W-bit pattern drawn from structured classes (tag, value)."""
     W = w * n
     M = 1 << W
-    c = rng.randrange(18)
+    c = rng.randrange(23)
     if c == 0:
         return "zero", 0
     if c == 1:
@@ -82,6 +82,36 @@ def value(rng, w, n):
         j = rng.randrange(1, n + 1)
         z = rng.choice([1, -1]) * (1 << (w * j)) + rng.choice([-129, -128, -127, -2, -1, 0, 1, 2, 127, 128, 129])
         return "digit-boundary", pat(z, W)
+    if c == 18:
+        # the low k digits (or low j bits) are zero
+        if rng.random() < 0.5:
+            k = rng.randrange(1, n + 1)
+            return "low-zero-digits", pat(rng.randrange(1, 1 << max(1, W - w * k + 1)) << (w * k), W)
+        j = rng.randrange(1, W)
+        return "low-zero-bits", pat(rng.randrange(1, 1 << (W - j)) << j, W)
+    if c == 19:
+        # a single non-zero digit somewhere / a window of non-zero digits with zeros around it
+        i = rng.randrange(n)
+        ln = rng.choice([1, 1, 2, rng.randrange(1, n - i + 1)])
+        return "digit-window", pat(rng.choice([1, (1 << (w * ln)) - 1, rng.randrange(1, 1 << (w * ln))]) << (w * i), W)
+    if c == 20:
+        # the same digit repeated (0x0101.., 0x7f7f.., 0xabab..), optionally with one digit disturbed
+        d = digit_value(rng, w) or 1
+        v = sum(d << (w * i) for i in range(n))
+        if rng.random() < 0.3:
+            v ^= rng.randrange(1, 1 << w) << (w * rng.randrange(n))
+        return "repeated-digit", v
+    if c == 21:
+        # one run of ones from bit i to bit j (and its complement)
+        i = rng.randrange(W)
+        j = rng.randrange(i, W)
+        v = ((1 << (j - i + 1)) - 1) << i
+        return "bit-run", v if rng.random() < 0.7 else pat(~v, W)
+    if c == 22:
+        # digit-palindromes
+        h = [digit_value(rng, w) for _ in range((n + 1) // 2)]
+        ds = h + h[:n // 2][::-1]
+        return "palindrome", sum(d << (w * i) for i, d in enumerate(ds))
     # extreme digits
     v = 0
     for i in range(n):
